@@ -5,7 +5,8 @@ C06b.lean (swap = fixed + float; par rate; telescoping float leg), C06c.lean (de
 rate: as coded, with the kernel-checked counterexamples behind the known findings), C06d.lean (cached tables),
 C06e.lean (hand model's loop bodies / small methods = the functions generated from the source; liveness filter per flow),
 C06f.lean (telescoping with fixing and principal, rescaling invariance, value = (cpn − par)·pv01·N, basis swaps, flat annuity),
-C06g.lean (equity leg = discounted sum; notional array repeats, not tiles; equity swap worth zero at inception).
+C06g.lean (equity leg = discounted sum; notional array = reset notional of the equity period containing each accrual start
+(as repaired; not the front-aligned repeat, not tiled); equity swap with stubs / more rate periods than resets worth zero at inception).
 Correspondence: implementation vs hand model (Driver/C06) and vs the source-independent spec
 (Driver/C06Spec) on the schedule / year fractions / discount factors the harness recomputes itself
 through the public API (Schedule, DayCount, Calendar, curve.df) — never from the leg's own tables.
@@ -1170,7 +1171,7 @@ def basis_case(ctx, E, rng, pool, B, T, tag):
 
 
 # --------------------------------------------------------------------------- equity swap (EquitySwapLeg + SwapFloatLeg on reset notionals)
-FND_EQ = 'C06/equity-swap-rate-notional-front-aligned'
+# C06/equity-swap-rate-notional-front-aligned is FIXED (fix: commit PENDING): no classifier — a recurrence is a VIOLATION
 SAFE_DCS = ['ACT_360', 'ACT_365F', 'THIRTY_E_360', 'ACT_ACT_ISDA', 'THIRTY_360_BOND']
 
 
@@ -1388,11 +1389,8 @@ def equity_swap_case(ctx, E, rng, pool, B, T, tag):
     # ---- the rate leg's notional array
     impl_arr = [float(x) for x in rl.notional_array]
     impl_last = [float(x) for x in el.last_notionals]
-    as_coded = [impl_last[i // multiple] for i in range(multiple * n_e)] if multiple > 0 else []
-    array_is_repeat = len(impl_arr) == len(as_coded) and all(a_ == b_ for a_, b_ in zip(impl_arr, as_coded))
-    misaligned = [j for j in live_r if exp_not[j] is not None and multiple > 0 and j // multiple != ks[j]]
     T.add(comp + ':multiple>1', int(multiple > 1))
-    T.add(comp + ':front-aligned-blocks-differ-from-containing-period', int(bool(misaligned)))
+    T.add(comp + ':blocks-of-unequal-size (stub)', int(multiple > 0 and any(j // multiple != ks[j] for j in live_r if ks[j] is not None)))
     T.add(comp + ':unresolved-rate-periods', int(unresolved > 0))
     flagged = False
     for j in live_r:
@@ -1401,30 +1399,22 @@ def equity_swap_case(ctx, E, rng, pool, B, T, tag):
         used = impl_arr[j] if j < len(impl_arr) else float('nan')
         e_amt = rrows[j][1]
         if not close(used, exp_not[j], 0.0, 1e-12) or not close(float(rl.payments[j]), e_amt, abs(exp_not[j]) * 1e-9):
-            fnd = FND_EQ if (array_is_repeat and j in misaligned and j < len(as_coded) and used == as_coded[j]) else None
             ctx.violation(f'{comp}: rate period {j} does not accrue on the reset notional of the equity period it lies in '
                           f'(flow ≠ accrual × (index forward + spread) × that notional)',
                           dict(case, j=j, accrual=(str(rper[j][0]), str(rper[j][1])), equity_period=ks[j],
                                equity_accrual=(str(eper[ks[j]][0]), str(eper[ks[j]][1])), notional_used=used,
                                reset_notional=exp_not[j], flow=float(rl.payments[j]), expected_flow=e_amt,
                                multiple=multiple, reset_notionals=impl_last, notional_array=impl_arr),
-                          finding=fnd, clause='rate-notional=reset-notional-of-containing-equity-period')
+                          clause='rate-notional=reset-notional-of-containing-equity-period')
             flagged = True
             break
     # the rate leg's value as the discounted sum on the expected notionals
-    rate_as_coded = None
     if unresolved == 0:
         e_rt = -sgn * math.fsum(r[3] for r in rrows)
         if not close(vrt, e_rt, scale):
-            try:
-                rc, _ = own_float(E, rper, vd, dfT, idxT, idx.dc_type, ff, spread, (impl_arr + [N0] * n_r)[:n_r])
-                rate_as_coded = -sgn * math.fsum(r[3] for r in rc)
-            except Exception:  # noqa: BLE001
-                rate_as_coded = None
-            fnd = FND_EQ if (array_is_repeat and misaligned and rate_as_coded is not None and close(vrt, rate_as_coded, scale)) else None
             ctx.violation(f'{comp}: rate leg value is not the discounted sum of accrual × (forward + spread) × reset notional of the '
                           f'containing equity period',
-                          dict(case, impl=vrt, expected=e_rt, as_coded=rate_as_coded, multiple=multiple), finding=fnd,
+                          dict(case, impl=vrt, expected=e_rt, multiple=multiple, notional_array=impl_arr, reset_notionals=impl_last),
                           clause='value=sum(rate leg)')
             flagged = True
     # ---- worth zero at inception: no spread, no dividends, one curve, matching bases, lag 0, price = strike, all to be paid,
@@ -1438,9 +1428,9 @@ def equity_swap_case(ctx, E, rng, pool, B, T, tag):
     if zero_ok:
         T.add(comp + ':zero-at-inception-checked')
         if not close(v, 0.0, scale):
-            fnd = FND_EQ if (array_is_repeat and misaligned and rate_as_coded is not None and close(vrt, rate_as_coded, scale)) else None
             ctx.violation(f'{comp}: a spread-free, dividend-free equity swap with matching bases on one curve is not worth zero at inception',
-                          dict(case, value=v, equity=veq, rate=vrt, multiple=multiple), finding=fnd, clause='zero-at-inception')
+                          dict(case, value=v, equity=veq, rate=vrt, multiple=multiple, notional_array=impl_arr, reset_notionals=impl_last),
+                          clause='zero-at-inception')
     # ---- model: equity leg rows (hand model + generated loop body), swap value + the notional array itself
     impl_erows = [(float(el.fwd_rates[i]), float(el.div_fwd_rates[i]), float(el.eq_fwd_rates[i]), float(el.last_notionals[i]),
                    float(el.payment_amounts[i]), float(el.payment_dfs[i]), float(el.payment_pvs[i]), float(el.cumulative_pvs[i]))
@@ -1471,7 +1461,7 @@ def equity_swap_case(ctx, E, rng, pool, B, T, tag):
             return
         bad = [nm for nm, m, i_ in (('value', xs[0], v), ('equity leg', xs[1], veq), ('rate leg', xs[2], vrt)) if not close(m, i_, scale)]
         if any(not close(a_, b_, 0.0, 1e-12) for a_, b_ in zip(xs[3:], impl_arr)):
-            bad.append('notional_array (repeat each reset notional `multiple` times)')
+            bad.append('notional_array (reset notional of the equity period containing each accrual start)')
         if bad:
             tie_broken(ctx, T, comp, f'EquitySwap model≠implementation on {bad} (model array {xs[3:11]}, impl array {impl_arr[:8]}) on {case}')
     rias2 = [float(_dcc.year_frac(a, b)[0]) for a, b, _, _ in rper]
@@ -1486,16 +1476,19 @@ def equity_swap_case(ctx, E, rng, pool, B, T, tag):
                           dict(case, impl=veq, spec=o), clause='value=sum(equity leg, spec-driver)')
     B.spec(f'EQ {int(eqIsPay)} {ser(vd)} {f2b(price)} {f2b(qty)} {f2b(N0)} {enc_eperiods(eper, eias)} {dfT.enc()} {idxT.enc()} {dvT.enc()}',
            cb_spec)
-    if multiple > 0 and impl_arr and not misaligned:
-        jj = rng.randrange(len(impl_arr))
+    cand = [j for j in live_r if exp_not[j] is not None and j < len(impl_arr)]
+    if cand:
+        jj = rng.choice(cand)
+        eq_enc = f'{n_e} ' + ' '.join(f'{ser(a)} {ser(b)} {f2b(resets[k_] if resets[k_] is not None else N0)}'
+                                       for k_, (a, b, _, _) in enumerate(eper))
 
         def cb_rn(o, op):
-            if o.startswith(('E:', 'bad', 'none')) or b2f(o) != impl_arr[jj]:
-                ctx.violation(f'{comp}: notional_array[{jj}] is not the reset notional of equity period {jj} // {multiple} '
-                              f'(each reset notional repeated `multiple` times)',
-                              dict(case, j=jj, multiple=multiple, impl=impl_arr[jj], spec=o, reset_notionals=impl_last,
-                                   notional_array=impl_arr), clause='notional-array-repeat(spec-driver)')
-        B.spec(f'RN {multiple} {jj} {len(impl_last)} ' + ' '.join(f2b(x) for x in impl_last), cb_rn)
+            if o.startswith(('E:', 'bad', 'none')) or not close(b2f(o), impl_arr[jj], 0.0, 1e-12):
+                ctx.violation(f'{comp}: notional_array[{jj}] is not the reset notional of the equity period that contains the '
+                              f'accrual start of rate period {jj}',
+                              dict(case, j=jj, start=str(rper[jj][0]), impl=impl_arr[jj], spec=(b2f(o) if o.isdigit() else o),
+                                   reset_notionals=impl_last, notional_array=impl_arr), clause='rate-notional(spec-driver)')
+        B.spec(f'RN {ser(rper[jj][0])} {eq_enc}', cb_rn)
     # ---- pay = -receive, linear in the quantity
     v_opp, eo = call(lambda: build(isPay=not eqIsPay).value(vd, curve, pass_idx, pass_dv, cur, ff))
     if eo or not close(v_opp, -v, scale, 1e-13):
@@ -1838,14 +1831,13 @@ def witnesses(ctx, E):
             j = 3                                   # accrues 19-DEC-2022 -> 20-MAR-2023, inside equity period 1
             inside = (es.equity_leg.start_accd_dts[1] <= es.rate_leg.start_accrued_dts[j]
                       and es.rate_leg.end_accrued_dts[j] <= es.equity_leg.end_accd_dts[1])
-            if inside and len(last) == 2 and arr[j] == last[0] and last[0] != last[1] and abs(v) > 1.0:
+            # regression witness of the former finding C06/equity-swap-rate-notional-front-aligned (fixed: commit PENDING)
+            if not (inside and len(last) == 2 and len(arr) == 7 and arr[j] == last[1] and arr[2] == last[0] and abs(v) <= 1e-3):
                 ctx.violation('witness: 18M equity swap (annual resets, quarterly rate leg, front stub): rate period 3 lies in the second '
-                              f'equity period but accrues on the first reset notional; worth {v:.2f} at inception instead of 0',
-                              {'tag': 'witness/equity-front-stub', 'value': v, 'notional_array': arr, 'reset_notionals': last},
-                              finding=FND_EQ, clause='rate-notional=reset-notional-of-containing-equity-period')
-            elif not (inside and abs(v) <= 1e-3):
-                ctx.violation('witness: 18M equity swap with a front stub', {'tag': 'witness/equity-front-stub', 'value': v, 'inside': inside},
-                              clause='zero-at-inception')
+                              f'equity period and must accrue on the second reset notional; the swap must be worth 0 at inception (got {v:.2f})',
+                              {'tag': 'witness/equity-front-stub', 'value': v, 'notional_array': arr, 'reset_notionals': last,
+                               'rate_period_3_inside_equity_period_1': inside},
+                              clause='rate-notional=reset-notional-of-containing-equity-period')
         else:
             ctx.violation(f'witness: EquitySwap.value raised {e}', {'tag': 'witness/equity-front-stub'}, clause='value-error')
         n = 9
